@@ -91,6 +91,9 @@ impl H {
     pub fn close(&mut self) -> GneissResult<()> { self.log.push("close".into()); self.net(NetworkEvent::ConnectionClosed) }
     pub fn write_completion(&mut self) -> GneissResult<()> { self.log.push("wc".into()); self.net(NetworkEvent::WriteCompletion) }
 
+    /// raw bytes from the "socket", one read
+    pub fn feed(&mut self, bytes: &[u8]) -> GneissResult<()> { self.net(NetworkEvent::IncomingData(bytes)) }
+
     /// encode a broker packet with the crate's Encoder and feed it to the engine in `chunk`-byte reads
     pub fn deliver(&mut self, packet: MqttPacket, chunk: usize) -> GneissResult<()> {
         self.log.push(format!("deliver {}", crate::mqtt::utils::mqtt_packet_to_str(&packet)));
